@@ -403,3 +403,135 @@ Definition filter_run (above : option Z) (strip : bool) (final_bz2 inplace : boo
 
 Definition logfile_written (name_bz2 : bool) (recs : list frec) : option (list frec) :=
   read_back name_bz2 (write_codec logfile_codec_from name_bz2 false) recs.
+
+(* ---------------------------------------------------------------- one reactor iteration at a time *)
+(* `step` above runs ONE application call and then the whole eventual-send queue.  What follows is the same machine at
+   a finer grain: several calls may happen before the queue runs, an application observer may make a call from inside
+   the queue's batch, calls may be due at the same instant as a reporter's trailing timer (before or after it).
+   A trailing reporter now has three phases: recording (i_rep = Some r: subscribed, active), stopped (f_closing:
+   unsubscribed by stop_recording, files still open, closed by finished_recording in the NEXT batch) and finished.
+   Whether a stopped reporter still claims to be active is the translated fact active_cleared_at; while one does,
+   declare_incident gives every trigger to its new_trigger() -- modelled with the same flag as a failed reporter that
+   is still referenced (i_zombie). *)
+Record fine := mkFine { f_s : st; f_closing : list reporter }.
+
+Definition window_active (closing : list reporter) : bool :=
+  match active_cleared_at with AtStop => false | AtFinish => negb (list_is_nil closing) end.
+
+Definition set_zombie (s : st) (z : bool) : st :=
+  let i := s_inc s in with_inc s (mkInc (i_rep i) z (i_declared i) (i_recorded i) (i_files i) (i_junk i)).
+
+Definition rep_id (s : st) : Z := match i_rep (s_inc s) with Some r => e_id (r_trigger r) | None => 0 end.
+
+Definition tag (s : st) (l : list event) : list (Z * event) := map (fun e => (rep_id s, e)) l.
+
+(* one application call WITHOUT the eventual turn -> state, value returned, notifications queued (each addressed to the
+   reporter that was subscribed when the event was emitted) *)
+Definition call_nt (c : cfg) (s : st) (o : op) : st * option Z * list (Z * event) :=
+  match o with
+  | Msg numo fac lvl ok reprok id =>
+    let '(num, seq') := match numo with Some n => (n, s_seq s) | None => next_num (s_seq s) end in
+    let s0 := mkSt seq' (s_sizes s) (s_thr s) (s_bufs s) (s_inc s) in
+    let '(s1, raised, n1) := msg_inner c s0 (mkEv num fac lvl ok id) in
+    if raised then
+      if msg_catch_all then let '(s2, n2) := fallback c s1 num id reprok in (set_zombie s2 false, Some num, tag s0 n1 ++ tag s1 n2)
+      else (set_zombie s1 false, None, tag s0 n1)
+    else (set_zombie s1 false, Some num, tag s0 n1)
+  | MsgBad reprok id =>
+    let '(num, seq') := next_num (s_seq s) in
+    let s0 := mkSt seq' (s_sizes s) (s_thr s) (s_bufs s) (s_inc s) in
+    if msg_catch_all then let '(s2, n2) := fallback c s0 num id reprok in (set_zombie s2 false, Some num, tag s0 n2)
+    else (s0, None, [])
+  | SetSize _ _ _ | SetThr _ _ => (fst (step c s o), None, [])
+  | Timer => (s, None, [])
+  end.
+
+Definition fcall (c : cfg) (f : fine) (o : op) : fine * option Z * list (Z * event) :=
+  let '(s1, r, n) := call_nt c (set_zombie (f_s f) (window_active (f_closing f))) o in (mkFine s1 (f_closing f), r, n).
+
+Fixpoint fcalls (c : cfg) (f : fine) (calls : list op) : fine * list (option Z) * list (Z * event) :=
+  match calls with
+  | [] => (f, [], [])
+  | o :: t => let '(f1, r, n) := fcall c f o in let '(f2, rs, ns) := fcalls c f1 t in (f2, r :: rs, n ++ ns)
+  end.
+
+(* trailing_event run from the queue: a reporter that is no longer recording ignores it; exhausting the quota only
+   STOPS the recording (stop_recording); the file is published by finished_recording in the next batch *)
+Definition trailing_event_f (f : fine) (n : Z * event) : fine :=
+  let i := s_inc (f_s f) in
+  match i_rep i with
+  | None => f
+  | Some r =>
+    if negb (e_id (r_trigger r) =? fst n) then f else
+    let rem := r_remaining r - trailing_decrement in
+    if cmpZ trailing_cmp rem 0
+    then mkFine (with_inc (f_s f) (trailing_event i (snd n))) (f_closing f)
+    else mkFine (with_inc (f_s f) (mkInc None (i_zombie i) (i_declared i) (i_recorded i) (i_files i) (i_junk i)))
+                (f_closing f ++ [mkRep (r_trigger r) (r_lines r) rem (r_timer r)])
+  end.
+
+Definition record_file (i : inc_st) (r : reporter) : inc_st :=
+  mkInc (i_rep i) (i_zombie i) (i_declared i) (i_recorded i + 1) (i_files i ++ [r_trigger r :: r_lines r]) (i_junk i).
+
+Definition finish_all (f : fine) : fine :=
+  mkFine (with_inc (f_s f) (fold_left record_file (f_closing f) (s_inc (f_s f)))) [].
+
+(* the queue's batch: the notifications in order; an application observer (registered before any reporter, so it sees
+   each event first) may react to the k-th one with a call of its own, whose notifications go to the next batch *)
+Fixpoint deliver (c : cfg) (f : fine) (notes : list (Z * event)) (idx : nat) (react : option (nat * op))
+  : fine * list (option Z) * list (Z * event) :=
+  match notes with
+  | [] => (f, [], [])
+  | n :: t =>
+    let '(f1, r1, n1) := match react with
+                         | Some (k, o) => if Nat.eqb k idx then let '(f', r, nn) := fcall c f o in (f', [r], nn) else (f, [], [])
+                         | None => (f, [], [])
+                         end in
+    let f2 := trailing_event_f f1 n in
+    let '(f3, r3, n3) := deliver c f2 t (S idx) react in (f3, r1 ++ r3, n1 ++ n3)
+  end.
+
+(* the trailing timer of reporter `target` (the one that was recording when the iteration began) fires *)
+Definition timer_stop (f : fine) (target : option Z) : fine :=
+  let i := s_inc (f_s f) in
+  match i_rep i, target with
+  | Some r, Some t =>
+    if r_timer r && (e_id (r_trigger r) =? t)
+    then mkFine (with_inc (f_s f) (mkInc None (i_zombie i) (i_declared i) (i_recorded i) (i_files i) (i_junk i)))
+                (f_closing f ++ [r])
+    else f
+  | _, _ => f
+  end.
+
+Definition timer_target (f : fine) : option Z :=
+  match i_rep (s_inc (f_s f)) with Some r => Some (e_id (r_trigger r)) | None => None end.
+
+Inductive iter :=
+| ICalls (calls : list op) (react : option (nat * op))
+| ITimer (before after : list op).    (* calls due at the instant of the trailing timer, run before / after it *)
+
+Definition iterate (c : cfg) (f : fine) (it : iter) : fine * list (option Z) :=
+  match it with
+  | ICalls calls react =>
+    let '(f1, rets, notes) := fcalls c f calls in
+    let '(f2, rets2, notes2) := deliver c f1 notes 0 react in
+    let '(f3, _, _) := deliver c (finish_all f2) notes2 0 None in
+    (finish_all f3, rets ++ rets2)
+  | ITimer before after =>
+    let '(f0, rets0, notes0) := fcalls c f before in
+    let '(f1, rets1, notes1) := fcalls c (timer_stop f0 (timer_target f)) after in
+    let '(f2, _, _) := deliver c (finish_all f1) (notes0 ++ notes1) 0 None in
+    (finish_all f2, rets0 ++ rets1)
+  end.
+
+Fixpoint iterations (c : cfg) (f : fine) (its : list iter) : fine * list (option Z) :=
+  match its with
+  | [] => (f, [])
+  | it :: t => let '(f1, r) := iterate c f it in let '(f2, rs) := iterations c f1 t in (f2, r ++ rs)
+  end.
+
+Definition fine_init : fine := mkFine init [].
+
+(* where an event ended up: header or line of some published incident file *)
+Definition in_some_file (i : inc_st) (id : Z) : bool :=
+  existsb (fun f => existsb (fun e => e_id e =? id) f) (i_files i).
